@@ -66,6 +66,9 @@ impl<'de, T> Visitor<'de> for TooDeeVisitor<T>
         if overflow {
             return Err(de::Error::invalid_value(Unexpected::Other("product"),&"dimensions too big"))
         }
+        if (num_cols == 0) != (num_rows == 0) {
+            return Err(de::Error::invalid_value(Unexpected::Other("dimensions"),&"both dimensions to be zero, or both to be non-zero"))
+        }
         if product != data.len() {
             return Err(de::Error::invalid_length(product, &"dimensions to match array length"))
         }
